@@ -1,12 +1,20 @@
 #!/bin/sh
 # Evaluate every kept seeded change (or those named on the command line) against
-# the current checks.  Results: /verif/seeded/<name>/result.json and a summary.
+# the current checks.  Default: the sanctioned way — apply to /repo, run the
+# quick checks, undo (sequential).  With --fast as first argument: scratch
+# worktrees and a private evidence directory, six at a time (for iteration).
 cd /verif || exit 2
+mode=""
+if [ "${1:-}" = "--fast" ]; then mode="--fast"; shift; fi
 names="$*"
 [ -z "$names" ] && names=$(ls seeded)
-for n in $names; do
-  timeout 900 tools/seedeval.py seeded/$n > seeded/$n/result.json 2> /tmp/seedeval-$n.err || true
-done
+if [ -n "$mode" ]; then
+  echo $names | tr ' ' '\n' | xargs -P 6 -I{} sh -c 'timeout 900 tools/seedeval.py seeded/{} --fast > seeded/{}/result.json 2> /tmp/seedeval-{}.err || true'
+else
+  for n in $names; do
+    timeout 900 tools/seedeval.py seeded/$n > seeded/$n/result.json 2> /tmp/seedeval-$n.err || true
+  done
+fi
 python3 - <<'PY'
 import json,glob,os
 rows=[]
